@@ -18,8 +18,13 @@ import (
 // ---------------------------------------------------------------------------
 
 type ProgSpec struct {
-	Kind     string `json:"kind"` // cheap | nested-fail | alloc
-	Tree     *N     `json:"tree"`
+	Kind string `json:"kind"` // cheap | nested-fail | alloc | touching | const-heavy | overload | probe
+	Tree *N     `json:"tree,omitempty"`
+	// Raw (kind=probe): source text outside the reference fragment, possibly using
+	// constructs this version of the library does not have. A probe the library
+	// rejects at Compile is skipped; an accepted one takes part in the history
+	// (oracles that need no reference model: fresh-VM comparison, snapshots).
+	Raw      string `json:"raw,omitempty"`
 	Optimize bool   `json:"optimize"`
 	Source   string `json:"source_text,omitempty"`
 }
@@ -48,6 +53,8 @@ type VMScenario struct {
 	Ops      []VMOp     `json:"ops"`
 	// ConstExpr: CI, CS and CB are marked as constant expressions at Compile.
 	ConstExpr bool `json:"const_expr_options,omitempty"`
+	// Operators: the ** operator is overloaded with OpA and OpB (both accept two *Obj).
+	Operators bool `json:"operator_options,omitempty"`
 	// CrossProcess (C09 only): digests of the compiled programs as computed by
 	// another process; a compilation here must produce the same.
 	CrossProcess []string `json:"cross_process_digests,omitempty"`
@@ -115,7 +122,12 @@ func genVMScenario(seed uint64, idx int, tier string, snapshotBias bool) *VMScen
 			ps.Kind = "const-heavy"
 			ps.Tree = genConstHeavy(g0)
 		}
-		ps.Source = Print(ps.Tree, Layout{}).Src
+		if snapshotBias && r.Chance(1, 6) {
+			ps.Kind = "probe"
+			ps.Tree = nil
+			ps.Raw = g0.Pick(probeSources)
+		}
+		ps.Source = ps.Src()
 		sc.Progs = append(sc.Progs, ps)
 	}
 
@@ -125,6 +137,9 @@ func genVMScenario(seed uint64, idx int, tier string, snapshotBias bool) *VMScen
 	for _, p := range sc.Progs {
 		w := NewWorld(sc.Stateful, nil, nil)
 		ref := NewRef(BuildEnv(w, base))
+		if p.Tree == nil {
+			continue
+		}
 		ref.Eval(p.Tree)
 		t := 0
 		for _, a := range ref.Allocs {
@@ -237,6 +252,18 @@ func genNestedFail(r *RNG) *N {
 	return nBi("map", nBin("..", nID("N"), nInt(r.Range(3, 6))), nBin("+", mid, nPtr()))
 }
 
+// probeSources are feature probes: sources outside the reference fragment,
+// some using constructs this version of the library may not have (they are
+// skipped when Compile rejects them). They aim at the places where a library
+// that shared memory with its inputs would write: sub-slices of
+// environment-owned slices with spare capacity, concatenations, conversions.
+var probeSources = []string{
+	"Xs[:1] + Ys", "Xs[0:1] + Xs[1:]", "Xs + Ys", "Xs[:1] + [Xs[0] + 1]", "Ys[:0] + Xs", "Ss[:1] + Ss",
+	"S + T", "Xs[:1]", "Xs[1:]", "filter(Xs[:2], {# > 0})", "map(Xs[:1], {# + 1})",
+	"O.Xs[:1] + Xs", "Xs[:len(Xs) - 1] + [0]", "[Xs[:1], Ys]", "{\"k1\": Xs[:1]}",
+	"Xs[:1] + map(Ys, {#})", "map(Objs, {#.V})", "O.Xs[:1]", "Mp", "len(Xs[:1] + Ys)",
+}
+
 // genTouching builds programs biased toward the places a write to shared data
 // would go: filter/map/slices over environment-owned slices, over folded
 // constant slices, over ranges; membership on environment maps with absent
@@ -265,6 +292,29 @@ func genTouching(r *RNG) *N {
 	}
 }
 
+// Src is the program's source text.
+func (p ProgSpec) Src() string {
+	if p.Tree == nil {
+		return p.Raw
+	}
+	return Print(p.Tree, Layout{}).Src
+}
+
+// vmOpts are the compile options of a vmsim scenario.
+func vmOpts(sc *VMScenario, p ProgSpec, sample interface{}) []expr.Option {
+	opts := []expr.Option{expr.Env(sample)}
+	if !p.Optimize {
+		opts = append(opts, expr.Optimize(false))
+	}
+	if sc.ConstExpr {
+		opts = append(opts, expr.ConstExpr("CI"), expr.ConstExpr("CS"), expr.ConstExpr("CB"))
+	}
+	if sc.Operators {
+		opts = append(opts, expr.Operator("**", "OpA", "OpB"))
+	}
+	return opts
+}
+
 type compiledProg struct {
 	prog *vm.Program
 	src  string
@@ -273,19 +323,20 @@ type compiledProg struct {
 func compileAll(sc *VMScenario, ctx *RunCtx, prop string) ([]compiledProg, *Finding) {
 	out := make([]compiledProg, len(sc.Progs))
 	for i, p := range sc.Progs {
-		src := Print(p.Tree, Layout{}).Src
+		src := p.Src()
 		w0 := NewWorld(false, nil, nil)
 		sample := BuildEnv(w0, sc.Envs[0]).AsRep(sc.Rep)
-		opts := []expr.Option{expr.Env(sample)}
-		if !p.Optimize {
-			opts = append(opts, expr.Optimize(false))
-		}
-		if sc.ConstExpr {
-			opts = append(opts, expr.ConstExpr("CI"), expr.ConstExpr("CS"), expr.ConstExpr("CB"))
-		}
-		pr, co := sutCompile(src, opts...)
+		pr, co := sutCompile(src, vmOpts(sc, p, sample)...)
 		if co.Failed() {
+			if p.Tree == nil && !co.Panicked {
+				ctx.Count("probes_rejected_by_compile", 1)
+				out[i] = compiledProg{nil, src}
+				continue
+			}
 			return nil, &Finding{Class: prop + "/compile-rejected", Detail: "Compile rejected a well-typed program of the fragment: " + co.ErrText() + "\nsource: " + src}
+		}
+		if p.Tree == nil {
+			ctx.Count("probes_accepted", 1)
 		}
 		out[i] = compiledProg{pr, src}
 	}
@@ -362,12 +413,19 @@ func runVMHistory(sc *VMScenario, ctx *RunCtx, prop string) *Finding {
 	var progSnap []string
 	if prop == "C09" {
 		for _, p := range progs {
+			if p.prog == nil {
+				progSnap = append(progSnap, "")
+				continue
+			}
 			progSnap = append(progSnap, Snapshot(p.prog))
 		}
 	}
 
 	step := func(opi int, op VMOp, crash int, label string) *Finding {
 		cp := progs[op.Prog]
+		if cp.prog == nil {
+			return nil // a probe this version of the library does not accept
+		}
 		var envBefore string
 		w := NewWorld(sc.Stateful, op.Faults, nil)
 		envv := BuildEnv(w, sc.Envs[op.Env]).AsRep(sc.Rep)
@@ -407,7 +465,9 @@ func runVMHistory(sc *VMScenario, ctx *RunCtx, prop string) *Finding {
 			// measure how often the history's cumulative allocation crossed the budget
 			wr := NewWorld(sc.Stateful, op.Faults, nil)
 			ref := NewRef(BuildEnv(wr, sc.Envs[op.Env]))
-			ref.Eval(sc.Progs[op.Prog].Tree)
+			if t := sc.Progs[op.Prog].Tree; t != nil {
+				ref.Eval(t)
+			}
 			for _, a := range ref.Allocs {
 				cumAlloc[op.VM] += a
 			}
@@ -444,6 +504,9 @@ func runVMHistory(sc *VMScenario, ctx *RunCtx, prop string) *Finding {
 				return &Finding{Class: "C09/environment-modified", Detail: fmt.Sprintf("op %d: running the program changed the environment value\nprogram: %s\n before: %s\n after:  %s", opi, cp.src, envBefore, after)}
 			}
 			for pi, p := range progs {
+				if p.prog == nil {
+					continue
+				}
 				if s := Snapshot(p.prog); s != progSnap[pi] {
 					return &Finding{Class: "C09/program-modified", Detail: fmt.Sprintf("op %d (program %d: %s) changed compiled program %d (%s)\n before: %s\n after:  %s", opi, op.Prog, cp.src, pi, p.src, progSnap[pi], s)}
 				}
@@ -470,6 +533,9 @@ func runVMHistory(sc *VMScenario, ctx *RunCtx, prop string) *Finding {
 		probe := op
 		probe.Prog = op.Probe
 		probe.Faults = nil
+		if progs[op.Prog].prog == nil || progs[op.Probe].prog == nil {
+			continue
+		}
 		scratch, _, _ := oneRun(sc, nil, progs[op.Prog], op, -1)
 		n := scratch.Steps
 		if n > 600 {
@@ -564,9 +630,11 @@ func vmShrinks(sc *VMScenario) []interface{} {
 	// simplify programs
 	for pi, p := range sc.Progs {
 		pi := pi
-		for _, t := range treeShrinks(p.Tree) {
-			t := t
-			add(func(c *VMScenario) { c.Progs[pi].Tree = t; c.Progs[pi].Source = Print(t, Layout{}).Src })
+		if p.Tree != nil {
+			for _, t := range treeShrinks(p.Tree) {
+				t := t
+				add(func(c *VMScenario) { c.Progs[pi].Tree = t; c.Progs[pi].Source = Print(t, Layout{}).Src })
+			}
 		}
 		if !p.Optimize {
 			add(func(c *VMScenario) { c.Progs[pi].Optimize = true })
